@@ -38,7 +38,7 @@ TECHNIQUE = ("explicit-state BFS over operation sequences on a real Charge objec
              "border/edge/outside/negative/non-finite positions, reads, removals, resets) against an exact-rational "
              "accumulator, with a read-free twin object for the 'reads are pure' rule and a compiled-kernel "
              "conformance pass (NUMBA_BOUNDSCHECK=1) over every distinct frame met")
-LEVEL_TEXT = ("Every operation sequence up to the stated depth over (a) 28 sub-alphabets (9 base operations + the "
+LEVEL_TEXT = ("Every operation sequence up to the stated depth over (a) 26 sub-alphabets (9 base operations + the "
               "cluster operations of one special position) and (b) the complete alphabet is executed on the real "
               "Charge; after every transition the reported array must equal the accumulator, the frame binned "
               "exactly must equal it too, a reset must give zero, clusters outside the sensitive area must not be "
@@ -241,6 +241,19 @@ def deep_alphabet(pos):
     return BASE_OPS + [cl(("n1", pos)), cl(("n7", "c00")), cl(("n7", pos)), cl(("n1", pos), ("n7", "c12"))]
 
 
+REPR_POSITIONS = ("c00", "corner", "lastin", "edge_top", "edge_left", "edge_bottom", "edge_right", "edge_right_last",
+                  "neg2_ver", "nan_ver", "far_ver")
+
+
+def repr_alphabet():
+    """small alphabet with one cluster operation per position class (deeper compiled-kernel conformance)"""
+    return [["arr", "ones"], ["rm", "first"], ["empty"]] + [cl(("n1", p)) for p in REPR_POSITIONS]
+
+
+def alphabet_by_name(name):
+    return {"wide": wide_alphabet, "small": lambda: wide_alphabet(small=True), "repr": repr_alphabet}[name]()
+
+
 def wide_alphabet(small=False):
     ops = list(BASE_OPS) + [["read", "xarray"], ["rm", "last"]]
     for p in POSITIONS:
@@ -379,7 +392,12 @@ class Model:
                 if not before.rows and before.arr is not None and bool(np.any(before.arr != 0)):
                     self.counts["array_folded_into_clusters"] += 1
         elif name == "rm":
-            if exc is not None:
+            if exc is not None and not before.rows and op[1] != "all":
+                # removing an id that does not exist may be refused; the state must then be untouched
+                if obs.visible() != before.visible():
+                    bad("raised-but-changed", f"remove_from_frame({ids}) raised {type(exc).__name__} but the state "
+                        f"changed to {obs.describe()}")
+            elif exc is not None:
                 bad("remove-raised", f"remove_from_frame({'' if op[1] == 'all' else ids}) raised "
                     f"{type(exc).__name__}: {exc}")
             elif before.rows:
@@ -514,10 +532,10 @@ def shards(tier, seed):
     nw = 16 if thorough else 4
     for i in range(len(_slices(wide, nw))):
         out.append({"part": "wide", "slice": [i, nw], "depth": 3 if thorough else 2, "seed": seed})
-    small = wide_alphabet(small=True)
-    nj = 16 if thorough else 8
-    for i in range(len(_slices(small, nj))):
-        out.append({"part": "jit", "slice": [i, nj], "depth": 3 if thorough else 2, "seed": seed})
+    # compiled-kernel conformance: (alphabet, depth, number of slices)
+    for alpha, depth, nj in ((("wide", 2, 12), ("repr", 3, 7)) if thorough else (("small", 2, 8),)):
+        for i in range(len(_slices(alphabet_by_name(alpha), nj))):
+            out.append({"part": "jit", "alpha": alpha, "slice": [i, nj], "depth": depth, "seed": seed})
     # longest first
     out.sort(key=lambda s: {"jit": 0, "wide": 1, "deep": 2}[s["part"]])
     return out
@@ -526,7 +544,7 @@ def shards(tier, seed):
 def _model_for(shard, collect=None):
     if shard["part"] == "deep":
         return Model(deep_alphabet(shard["pos"]), collect=collect)
-    alpha = wide_alphabet(small=shard["part"] == "jit")
+    alpha = alphabet_by_name(shard.get("alpha", "wide"))
     i, k = shard["slice"]
     return Model(alpha, first_ops=_slices(alpha, k)[i], collect=collect)
 
@@ -545,7 +563,8 @@ def run_shard(shard):
     counts = {"states": stats["states"], "transitions": stats["transitions"], "cap_hit": int(stats["cap_hit"]),
               "cpu_s_" + shard["part"]: int(round(time.time() - t0))}
     counts.update(m.counts)
-    sets = {"explored": [f"{shard['part']}:{shard.get('pos', shard.get('slice'))}@depth{stats['depth_completed']}"]}
+    what = shard["pos"] if shard["part"] == "deep" else f"{shard.get('alpha', 'wide')}-alphabet first-op slice {shard['slice'][0] + 1}/{shard['slice'][1]}"
+    sets = {"explored": [f"{shard['part']}:{what}@depth{stats['depth_completed']}"]}
     if frames is not None:
         flist = [_hexrows(rows) for rows in frames.values()]
         jv, nsig = jit_check(flist) if flist else ([], 0)
